@@ -26,16 +26,24 @@ Ring.ref_ring                     [(token_value, host_index)] sorted -- input of
 Ring.topology                     {host_index: (dc, rack)}
 Ring.keyspaces                    {name: options dict incl. "class"}
 Ring.strategy(name)               (strategy_class, options-without-class) for spec.placement.natural_endpoints
+Ring.alter_keyspace(name, opts)   a keyspace-level schema refresh: Metadata._update_keyspace(KeyspaceMetadata(...)) with new
+                                  replication options (creates the keyspace when absent); Ring.keyspaces follows
+Ring.drop_keyspace(name)          Metadata._drop_keyspace
 Ring.key_token(key_bytes)         reference token *value* of a key (spec.murmur3), comparable with ref_ring tokens
 Ring.driver_token(value)          driver Token object (token_class(value)) for TokenMap.get_replicas
 token_string(partitioner, value)  the string form the server sends for a token
 FakeCluster(metadata, endpoints_resolved)
 make_policy(spec, hosts=None)     load-balancing policy from a JSON spec (hosts: list of Host by index, for predicates):
                                   {"kind": "rr"} | {"kind": "dcaware", "local_dc": "dc0" | "", "used": 0..3}
-                                  | {"kind": "whitelist", "allowed": [host index...]}
+                                  | {"kind": "whitelist", "allowed": [host index...], "by_name": [host index...]}
+                                    (hosts in by_name are given to the constructor as host NAMES, see fake_dns; optional "pairs": [[i, j]]
+                                    adds names that resolve to two hosts)
                                   | {"kind": "filter", "allowed": [host index...], "child": spec}
                                   | {"kind": "default", "child": spec} | {"kind": "tokenaware", "child": spec, "shuffle": bool}
 pinned_random(randint_value, shuffle_seed)   context manager substituting cassandra.policies.randint / shuffle
+host_name(i)                      "node<i>.test" -- a DNS name of host index i
+fake_dns()                        context manager substituting the `socket` module seen by cassandra.policies with a resolver
+                                  that knows host_name(i) -> address(i), "pair<i>-<j>.test" -> both addresses, and IP literals
 """
 import contextlib
 import random as _random
@@ -136,6 +144,21 @@ class Ring(object):
                 return j
         raise KeyError(host)
 
+    def alter_keyspace(self, name, opts):
+        from cassandra.metadata import KeyspaceMetadata
+        o = dict(opts)
+        cls = o.pop("class")
+        if "." not in cls:
+            cls = STRATEGY_PREFIX + cls
+        self.keyspaces = dict(self.keyspaces)
+        self.keyspaces[name] = dict(opts)
+        self.metadata._update_keyspace(KeyspaceMetadata(name, True, cls, o))
+
+    def drop_keyspace(self, name):
+        self.keyspaces = dict(self.keyspaces)
+        self.keyspaces.pop(name, None)
+        self.metadata._drop_keyspace(name)
+
     def strategy(self, name):
         o = dict(self.keyspaces[name])
         cls = o.pop("class")
@@ -164,7 +187,9 @@ def make_policy(spec, hosts=None):
     if kind == "dcaware":
         return P.DCAwareRoundRobinPolicy(local_dc=spec.get("local_dc", ""), used_hosts_per_remote_dc=spec.get("used", 0))
     if kind == "whitelist":
-        return P.WhiteListRoundRobinPolicy([address(i) for i in spec["allowed"]])
+        named = set(spec.get("by_name", ()))
+        return P.WhiteListRoundRobinPolicy([host_name(i) if i in named else address(i) for i in spec["allowed"]] +
+                                           ["pair%d-%d.test" % (a, b) for a, b in spec.get("pairs", ())])
     if kind == "filter":
         allowed = frozenset(address(i) for i in spec["allowed"])
         return P.HostFilterPolicy(make_policy(spec["child"], hosts), lambda host: host.address in allowed)
@@ -193,3 +218,44 @@ def pinned_random(randint_value=0, shuffle_seed=0):
         yield
     finally:
         P.randint, P.shuffle = saved
+
+
+def host_name(i):
+    return "node%d.test" % i
+
+
+class _FakeSocketModule(object):
+    """stands in for the `socket` module inside cassandra.policies: only name resolution is replaced"""
+
+    def __init__(self, real):
+        self._real = real
+
+    def __getattr__(self, name):
+        return getattr(self._real, name)
+
+    def getaddrinfo(self, host, port, family=0, type=0, proto=0, flags=0):
+        import re
+        host = host.decode() if isinstance(host, bytes) else host
+        m = re.match(r"^node(\d+)\.test$", host)
+        if m:
+            ips = [address(int(m.group(1)))]
+        else:
+            m = re.match(r"^pair(\d+)-(\d+)\.test$", host)
+            if m:
+                ips = [address(int(m.group(1))), address(int(m.group(2)))]
+            elif re.match(r"^\d+\.\d+\.\d+\.\d+$", host):
+                ips = [host]
+            else:
+                raise self._real.gaierror(-2, "Name or service not known")
+        return [(self._real.AF_INET, self._real.SOCK_STREAM, 6, "", (ip, port or 0)) for ip in ips]
+
+
+@contextlib.contextmanager
+def fake_dns():
+    import cassandra.policies as P
+    saved = P.socket
+    P.socket = _FakeSocketModule(saved)
+    try:
+        yield
+    finally:
+        P.socket = saved
